@@ -46,14 +46,14 @@ def run(ctx):
 
 
 def _nodefault(ctx, index, env):
-    f = index.func("cdd.function.emit.function")
+    f, _xname, yname, _fields, _joint, _ctor = c02.emit_lists(ctx, index)
     lams = []
     for n in iter_own(f.node):
         if isinstance(n, (ast.Assign, ast.AnnAssign)) and n.value is not None:
             tg = n.targets if isinstance(n, ast.Assign) else [n.target]
-            if any(norm(t) == "defaults_from_params" for t in tg):
+            if any(norm(t) == yname for t in tg):
                 lams += [x for x in ast.walk(n.value) if isinstance(x, ast.Lambda)]
-    ctx.need(len(lams) == 1 and len(lams[0].args.args) == 1, "cannot find the one-argument lambda that builds defaults_from_params")
+    ctx.need(len(lams) == 1 and len(lams[0].args.args) == 1, "cannot find the one-argument lambda that builds the default list")
     lam = lams[0]
     pname = lam.args.args[0].arg
 
@@ -149,6 +149,13 @@ def _classdefault(ctx, index, env):
             return "ABSENT" if binding[e.id] is None else "PRESENT"
         return None
 
+    # `name, <entry> = param`: the local that holds the parameter entry, whatever it is called
+    entry_var = None
+    for st in iter_own(f.node):
+        if isinstance(st, ast.Assign) and isinstance(st.targets[0], ast.Tuple) and len(st.targets[0].elts) == 2 and isinstance(st.value, ast.Name) and st.value.id in f.params:
+            if all(isinstance(e, ast.Name) for e in st.targets[0].elts):
+                entry_var = st.targets[0].elts[1].id
+    ctx.need(entry_var is not None, "param2ast no longer unpacks its (name, entry) parameter")
     n = 0
     for r in iter_own(f.node):
         if not (isinstance(r, ast.Return) and isinstance(r.value, ast.Call) and norm(r.value.func) == "AnnAssign"):
@@ -157,7 +164,7 @@ def _classdefault(ctx, index, env):
         ctx.need(vkw is not None, "an AnnAssign(...) of param2ast has no value= keyword")
         n += 1
         # locals assigned before the return (e.g. `default = _param.get("default") if ... else quote(...)`)
-        binding = {"_param": {"doc": "d"}}
+        binding = {entry_var: {"doc": "d"}}
         for st in iter_own(f.node):
             if isinstance(st, ast.Assign) and len(st.targets) == 1 and isinstance(st.targets[0], ast.Name) and st.lineno < r.lineno:
                 got = ev(st.value, binding)
@@ -230,7 +237,7 @@ def _required(ctx, index):
     ctx.ob(
         "C04.required",
         f,
-        "required=True when [{}] ; default= when [{}]".format(
+        "'required' keyword when [{}] ; 'default' keyword when [{}]".format(
             ", ".join(("" if v else "not ") + a for a, v in sorted(ra)), ", ".join(("" if v else "not ") + a for a, v in sorted(da))
         ),
         exclusive,
